@@ -66,6 +66,14 @@ AsString(c) ==
     [] c = "F1.5" -> "s:1.5" [] c = "F2" -> "s:2" [] c = "Fm2.7" -> "s:-2.7"
     [] Val(c).k = "string" -> Val(c).p
     [] OTHER -> "none"
+\* Display (to_string; what Range::headers and the ..._or_string helpers show): numbers in their shortest decimal
+\* form, text as it is, booleans true / false, a date-time as its serial number, an error as its literal, Empty as ""
+Display(c) ==
+  CASE c = "E" -> "s:" [] c = "B1" -> "s:true" [] c = "B0" -> "s:false"
+    [] c = "DT" -> "s:45000.5" [] c = "TD" -> "s:1.5"
+    [] c = "XNA" -> "s:#N/A" [] c = "XDiv0" -> "s:#DIV/0!"
+    [] Val(c).k \in {"datetime_iso", "duration_iso"} -> Val(c).p
+    [] OTHER -> AsString(c)
 \* PartialEq against primitives: only the variant of the primitive's own type can be equal
 EqStr(c, t)  == Val(c).k = "string" /\ Val(c).p = t
 EqF64(c, t)  == Val(c).k = "float" /\ Val(c).p = t
@@ -74,7 +82,7 @@ EqBool(c, t) == Val(c).k = "bool" /\ Val(c).p = t
 \* DataRef -> Data: SharedString becomes String, everything else keeps its variant and payload
 Owned(c) == CASE c = "SS12" -> "S12" [] c = "SSx" -> "Sx" [] OTHER -> c
 
-Ops == {"is", "get", "as_i64", "as_f64", "as_string", "eq", "owned"}
+Ops == {"is", "get", "as_i64", "as_f64", "as_string", "display", "eq", "owned"}
 Prims == {"s:12", "s:x", "f:2", "f:1.5", "i:7", "i:12", "b:true", "b:false"}
 Bool2(b) == IF b THEN "b:true" ELSE "b:false"
 \* the result token of (op, argument, value code)
@@ -84,6 +92,7 @@ Result(op, arg, c) ==
     [] op = "as_i64"    -> AsI64(c)
     [] op = "as_f64"    -> AsF64(c)
     [] op = "as_string" -> AsString(c)
+    [] op = "display"   -> Display(Owned(c))
     [] op = "owned"     -> Owned(c)
     [] op = "eq"        -> Bool2(CASE arg \in {"s:12", "s:x"} -> EqStr(c, arg)
                                    [] arg \in {"f:2", "f:1.5"} -> EqF64(c, arg)
@@ -95,6 +104,8 @@ ArgsOf(op) == CASE op \in {"is", "get"} -> Kinds [] op = "eq" -> Prims [] OTHER 
 \* laws of the algebra (checked by TLC over all codes)
 ExactlyOneKind == \A c \in Codes : Cardinality({k \in Kinds : Is(k, c)}) = 1
 GetIffIs == \A c \in Codes, k \in Kinds \ {"empty"} : (Get(k, c) # "none") <=> Is(k, c)
+\* what a value shows is its text whenever it has one
+DisplayExtendsAsString == \A c \in Codes : AsString(c) # "none" => Display(c) = AsString(c)
 IntImpliesFloat == \A c \in Codes : AsI64(c) # "none" => AsF64(c) # "none"
 OwnVariantIsIdentity == \A c \in Codes : /\ (Is("int", c) => AsI64(c) = Get("int", c))
                                          /\ (Is("float", c) => AsF64(c) = Get("float", c))
